@@ -1,5 +1,6 @@
 from __future__ import annotations
 
+from enum import Enum as _Enum
 from enum import IntFlag
 
 from dissect.cstruct.types.base import BaseType
@@ -56,7 +57,8 @@ class Flag(BaseType, IntFlag, metaclass=EnumMetaType):
             return result
 
     def __eq__(self, other: int | Flag) -> bool:
-        if isinstance(other, Flag) and other.__class__ is not self.__class__:
+        if isinstance(other, _Enum) and other.__class__ is not self.__class__:
+            # Members of another flag or enum are never equal, whatever their value
             return False
 
         # Python <= 3.10 compatibility
